@@ -36,11 +36,18 @@ static void bs_harness_init(void)
                     BS_GRIDMEM[i].d[BS_GEQ_W[i][j]] != BS_GRIDMEM[j].d[BS_GEQ_W[i][j]])); \
   BS_AX3(i, j, 0) BS_AX3(i, j, 1) BS_AX3(i, j, 2) BS_AX3(i, j, 3)
 #define BS_AX1(i) __CPROVER_assume(BS_GEQ[i][i]); BS_AX2(i, 0) BS_AX2(i, 1) BS_AX2(i, 2) BS_AX2(i, 3)
+#ifndef BS_IEEE   /* with NaN elements vector equality is not reflexive: the IEEE-mode proofs do not use BS_GEQ */
   BS_AX1(0) BS_AX1(1) BS_AX1(2) BS_AX1(3)
+#endif
   /* sortedness flags: arbitrary */
   _Bool bs_s[BS_NG];
   BS_SORTED[0] = (bs_s[0] ? 1 : 0); BS_SORTED[1] = (bs_s[1] ? 1 : 0);
   BS_SORTED[2] = (bs_s[2] ? 1 : 0); BS_SORTED[3] = (bs_s[3] ? 1 : 0);
+  size_t bs_sw[BS_NG];
+  BS_SORTED_W[0] = bs_sw[0]; BS_SORTED_W[1] = bs_sw[1]; BS_SORTED_W[2] = bs_sw[2]; BS_SORTED_W[3] = bs_sw[3];
+#define BS_SW(i) __CPROVER_assume(BS_SORTED[i] || (BS_SORTED_W[i] < BS_CAP && BS_SORTED_W[i] + 1 < BS_GRIDMEM[i].n && BS_SORTED_W[i] + 1 < BS_CAP && \
+      !(BS_GRIDMEM[i].d[BS_SORTED_W[i]] < BS_GRIDMEM[i].d[BS_SORTED_W[i] + 1])));
+  BS_SW(0) BS_SW(1) BS_SW(2) BS_SW(3)
 #if BS_CAP <= 16
   /* small instance (refutation / canary / replay runs, every vector capped at BS_CAP elements): the ghost
    * relations are *defined* exactly from the contents, so a counterexample found here is fully concrete */
@@ -49,7 +56,9 @@ static void bs_harness_init(void)
       BS_EQK(i, j, 0) && BS_EQK(i, j, 1) && BS_EQK(i, j, 2) && BS_EQK(i, j, 3) && BS_EQK(i, j, 4) && BS_EQK(i, j, 5) && \
       BS_EQK(i, j, 6) && BS_EQK(i, j, 7)));
 #define BS_DEF1(i) BS_DEF2(i, 0) BS_DEF2(i, 1) BS_DEF2(i, 2) BS_DEF2(i, 3)
+#ifndef BS_IEEE
   BS_DEF1(0) BS_DEF1(1) BS_DEF1(2) BS_DEF1(3)
+#endif
 #define BS_INCK(i, k) (!((k) + 1 < BS_GRIDMEM[i].n) || BS_GRIDMEM[i].d[k] < BS_GRIDMEM[i].d[(k) + 1])
 #define BS_SDEF(i) __CPROVER_assume(BS_SORTED[i] == (BS_GRIDMEM[i].n <= BS_CAP && BS_INCK(i, 0) && BS_INCK(i, 1) && \
       BS_INCK(i, 2) && BS_INCK(i, 3) && BS_INCK(i, 4) && BS_INCK(i, 5) && BS_INCK(i, 6)));
